@@ -210,6 +210,15 @@ def ser_rules(ctx, flavours):
                     src = [c for c in term_calls(it) if c[1] in F.bodies and F.bodies[c[1]]['impl_self_q'] == fl + '::node::Node']
                     if src:
                         fp = footprint(F, M, F.bodies[src[0][1]])
+                        # a crate function that builds the list of edges (owned_edges): one push per entry it reads, nothing outside the loop
+                        sb_ = F.bodies[src[0][1]]
+                        if F.types[sb_['locals'][0]].get('p') == 'std::vec::Vec':
+                            scfg_ = F.cfg(sb_)
+                            sp_ = [pbi for pbi, pt in calls_in(sb_) if callee_name(pt).endswith('Vec::push')]
+                            sloops_ = scfg_.loops()
+                            in_loop = [pbi for pbi in sp_ if any(pbi in body_ for body_ in sloops_.values())]
+                            if len(sp_) != 1 or len(in_loop) != 1:
+                                why2.append('%s pushes %d times (%d in its loop): every half-edge it reads must be listed exactly once' % (sb_['name'], len(sp_), len(in_loop)))
                 if fp != {M.OUT}:
                     why2.append('per member the writer enumerates lists %s: every edge is stored as one OUT half, so only {OUT} lists each edge exactly once' %
                                 (sorted(M.role(x) for x in fp) if fp else '?'))
